@@ -15,7 +15,7 @@ ASSUMPTIONS = [
     "inequalities are asserted only where every involved slice has variances / covariance eigenvalues above 1e-8 x scale^2 (property: well above the variance floor); skipped cases are counted",
 ]
 
-COSTS = ["L2Cost", "GaussianVarCost", "GaussianCovCost", "L1Cost", "TrendL2"]
+COSTS = ["L2Cost", "GaussianVarCost", "GaussianCovCost", "L1Cost", "TrendL2", "MemoAbs"]
 
 
 def make_cost(name, param=None, extra=None):
@@ -25,6 +25,10 @@ def make_cost(name, param=None, extra=None):
 
         p = None if param is None else param["mean"]
         return L1Cost(p if p is None or not isinstance(p, list) else list(p), 1.0 if extra is None else extra)
+    if name == "MemoAbs":  # user cost that memoises and returns its cached arrays
+        from userdefs.scorers import MemoisingAbsCost
+
+        return MemoisingAbsCost(None if param is None else float(np.asarray(param["mean"], dtype=float).reshape(-1)[0]))
     if name == "TrendL2":  # user cost that subclasses the built-in L2Cost and overrides its evaluation
         from userdefs.scorers import TrendPenalisedL2Cost
 
@@ -35,7 +39,7 @@ def make_cost(name, param=None, extra=None):
 
 
 def cost_min_size(name, p):
-    return 1 if name in ("L1Cost", "TrendL2") else c01.min_size_of(name, p)
+    return 1 if name in ("L1Cost", "TrendL2", "MemoAbs") else c01.min_size_of(name, p)
 
 
 def to_container(X, container):
@@ -126,7 +130,7 @@ def compare_rows(what, got, want_rows, cuts, scale_rows):
 def change_cases(draw, tier):
     case = draw(base_case(tier, "change"))
     p = len(case["X"][0])
-    case["param"] = draw(c01.fixed_param(case["cost"], p)) if (case["cost"] not in ("L1Cost", "TrendL2") and draw(st.integers(0, 4)) == 0) else None
+    case["param"] = draw(c01.fixed_param(case["cost"], p)) if (case["cost"] not in ("L1Cost", "TrendL2", "MemoAbs") and draw(st.integers(0, 4)) == 0) else None
     return case
 
 
@@ -159,6 +163,13 @@ def check_change(case):
                 continue
             raise Violation(f"ChangeScore raised although the cost scores all three intervals: {e}", cut=c)
     compare_rows("ChangeScore(cost)", got, want, cuts, scales)
+    if all(w is not None for w in want):
+        # the same cuts evaluated once more (as one batch, twice) must give the same values again
+        with sut("ChangeScore(cost): repeated evaluation"):
+            first = np.array(sc.evaluate(np.asarray(cuts, dtype=np.int64)), dtype=float)
+            again = np.asarray(sc.evaluate(np.asarray(cuts, dtype=np.int64)), dtype=float)
+        compare_rows("ChangeScore(cost) (evaluated again)", list(again), want, cuts, scales)
+        compare_rows("ChangeScore(cost) (first result after a second evaluation)", list(first), want, cuts, scales)
     # batch evaluation equals row-wise evaluation
     if all(w is not None for w in want):
         with sut("ChangeScore.evaluate(batch)"):
@@ -178,7 +189,9 @@ def check_change(case):
 def saving_cases(draw, tier):
     case = draw(base_case(tier, "saving"))
     p = len(case["X"][0])
-    if case["cost"] in ("L1Cost", "TrendL2"):
+    if case["cost"] == "MemoAbs":
+        case["param"] = {"mean": draw(st.floats(-5, 5, allow_nan=False))}
+    elif case["cost"] in ("L1Cost", "TrendL2"):
         case["param"] = {"mean": draw(st.one_of(st.floats(-5, 5, allow_nan=False),
                                                 st.lists(st.floats(-5, 5, allow_nan=False), min_size=p, max_size=p)))}
     else:
@@ -211,6 +224,13 @@ def check_saving(case):
                 continue
             raise Violation(f"Saving raised although both costs score the interval: {e}", cut=c)
     compare_rows("Saving(cost)", got, want, cuts, scales)
+    if all(w is not None for w in want):
+        # the same cuts evaluated once more (as one batch, twice) must give the same values again
+        with sut("Saving(cost): repeated evaluation"):
+            first = np.array(sv.evaluate(np.asarray(cuts, dtype=np.int64)), dtype=float)
+            again = np.asarray(sv.evaluate(np.asarray(cuts, dtype=np.int64)), dtype=float)
+        compare_rows("Saving(cost) (evaluated again)", list(again), want, cuts, scales)
+        compare_rows("Saving(cost) (first result after a second evaluation)", list(first), want, cuts, scales)
     nt = any(w is not None and (c[0] > 0 or c[1] < len(X)) and not np.all(X[c[0]:c[1]] == X[c[0]]) for w, c in zip(want, cuts))
     return {"nontrivial": nt, "classes": [f"cost={case['cost']}", case["container"]]}
 
@@ -257,6 +277,13 @@ def check_local(case):
                 continue
             raise Violation(f"LocalAnomalyScore raised although the cost scores all parts: {e}", cut=c)
     compare_rows("LocalAnomalyScore(cost)", got, want, cuts, scales)
+    if all(w is not None for w in want):
+        # the same cuts evaluated once more (as one batch, twice) must give the same values again
+        with sut("LocalAnomalyScore(cost): repeated evaluation"):
+            first = np.array(sc.evaluate(np.asarray(cuts, dtype=np.int64)), dtype=float)
+            again = np.asarray(sc.evaluate(np.asarray(cuts, dtype=np.int64)), dtype=float)
+        compare_rows("LocalAnomalyScore(cost) (evaluated again)", list(again), want, cuts, scales)
+        compare_rows("LocalAnomalyScore(cost) (first result after a second evaluation)", list(first), want, cuts, scales)
     if all(w is not None for w in want):
         with sut("LocalAnomalyScore.evaluate(batch)"):
             batch = np.asarray(sc.evaluate(np.asarray(cuts, dtype=np.int64)))
@@ -384,6 +411,57 @@ def check_inequalities(case):
     return {"nontrivial": True, "classes": classes}
 
 
+# ------------------------------------------------------------------ same buffer, new contents
+
+
+@st.composite
+def refill_cases(draw, tier):
+    from checks.c11 import scorer_cases
+
+    case = draw(scorer_cases(tier))
+    n, p = len(case["X"]), len(case["X"][0])
+    case["X2"] = draw(D.exact_matrix(n, p, dyadic=False)) if case["integral"] else draw(D.generic_matrix(n, p))
+    case["container"] = draw(st.sampled_from(["ndarray", "DataFrame"]))
+    case["same_object"] = draw(st.booleans())
+    return case
+
+
+def check_refill(case):
+    """fit(buffer), the caller refills the buffer in place, fit again: the scores must describe the new contents
+    (differential against a scorer fitted on a fresh array with the same numbers)."""
+    import pandas as pd
+    from checks import common as K
+
+    spec = case["scorer"]
+    X1, X2 = np.asarray(case["X"], dtype=float), np.asarray(case["X2"], dtype=float)
+    cuts = np.asarray(case["cuts"], dtype=np.int64)
+    buf = pd.DataFrame(X1.copy()) if case["container"] == "DataFrame" else X1.copy()
+    try:
+        with sut("scorer fit / refill / fit / evaluate", allowed=(RuntimeError,)):
+            want = np.asarray(K.build(spec).fit(X2.copy()).evaluate(cuts))
+            s1 = K.build(spec).fit(buf)
+            try:
+                s1.evaluate(cuts)
+            except RuntimeError:
+                pass
+            if isinstance(buf, pd.DataFrame):
+                buf.iloc[:, :] = X2
+            else:
+                buf[:] = X2
+            s2 = (s1 if case["same_object"] else K.build(spec)).fit(buf)
+            got = np.asarray(s2.evaluate(cuts))
+    except RuntimeError as e:
+        if "positive definite" in str(e):
+            return {"nontrivial": False, "classes": ["not_pd_error"]}
+        raise
+    mag = K.score_magnitude(spec, np.vstack([X1, X2]), len(X1))
+    if want.shape != got.shape or not np.allclose(want, got, rtol=1e-9, atol=1e-9 * (1 + np.abs(want).max() + mag)):
+        raise Violation("after the fitted buffer was refilled in place and fitted again, the scores do not describe its "
+                        "current contents", scorer=spec, container=case["container"], same_object=case["same_object"],
+                        expected=want.tolist(), got=got.tolist())
+    return {"nontrivial": not np.array_equal(X1, X2), "classes": [f"scorer={spec['cls']}", f"container={case['container']}"]}
+
+
 # ------------------------------------------------------------------ converters
 
 
@@ -463,6 +541,11 @@ FACETS = [
           rule=("structured float data with noise scale >= 1e-2: change score >= 0, saving >= 0, C_opt <= C_theta, "
                 "C(s,e) >= C(s,k)+C(k,e) up to the error model; non-trivial = not skipped as near-degenerate"),
           n_quick=800, n_thorough=12000, shards_quick=8),
+    Facet(name="refilled_buffer", check=check_refill, strategy=refill_cases,
+          rule=("15 scorer configurations (costs, change scores, savings, local anomaly scores): fit on a buffer, the caller "
+                "overwrites it in place, fit again with the same or a new scorer object, evaluate; compared with a scorer fitted "
+                "on a fresh array holding the new numbers; non-trivial = the contents changed"),
+          n_quick=400, n_thorough=6000, shards_quick=4),
     Facet(name="converters", check=check_converter, strategy=converter_cases,
           rule=("to_change_score / to_saving / to_local_anomaly_score applied to every scorer kind: same kind is passed "
                 "through (identity), costs are wrapped and evaluate like the adapter, everything else raises ValueError"),
